@@ -1475,6 +1475,12 @@ class FnEval:
         if depth > 10 or op[0] not in ("cp", "mv"):
             return None
         pl = op[1]
+        if len(pl) == 2 and pl[1] == "*":
+            # `*x` with `x = &y`: the value is y itself
+            dx = self.b.single_def(pl[0])
+            if dx and dx[2] == "A" and dx[3][2][0] == "ref" and len(dx[3][2][2]) == 1:
+                return self.ref_root(["cp", [dx[3][2][2][0]]], depth + 1)
+            return None
         if len(pl) != 1:
             return None
         l = pl[0]
@@ -1487,8 +1493,12 @@ class FnEval:
             rv = d[3][2]
             if rv[0] == "ref" and len(rv[2]) == 2 and rv[2][1] == "*":
                 return self.ref_root(["cp", [rv[2][0]]], depth + 1)
-            if rv[0] == "use":
-                return self.ref_root(rv[1], depth + 1)
+            if rv[0] == "ref" and len(rv[2]) == 3 and rv[2][1] == "*" and rv[2][2] == "*":
+                return self.ref_root(["cp", [rv[2][0]]], depth + 1)      # &**x
+            if rv[0] == "ref" and len(rv[2]) == 1 and self.ty(rv[2][0]).get("k") in ("ref", "ptr"):
+                return self.ref_root(["cp", [rv[2][0]]], depth + 1)      # &x with x itself a reference (auto-deref at the use)
+            if rv[0] in ("use", "cast"):
+                return self.ref_root(rv[1] if rv[0] == "use" else rv[2], depth + 1)
         elif d[2] == "call":
             name = d[3][1]["f"]
             if name.endswith("::as_ref") or "Deref>::deref" in name:
